@@ -213,9 +213,9 @@ def _enclosing_ifs(root, target):
 
 
 def r3(ctx, fn, lp):
-    """chaining inside a block, decided on the E5 effect summary of Feedback::forward (independent of spelling)"""
+    """chaining inside a block, decided on the E6 effect summary of Feedback::forward (independent of spelling)"""
     c = ctx.crate
-    from .. import e5
+    from .. import e6 as e5
     E = e5.Exec(c, fn)
     fpaths = [p for p in E.run_fn() if p.exit is None or p.exit[0] == "return"]
     if not fpaths:
